@@ -23,17 +23,24 @@ from checks import c15
 PID = "C14"
 
 
+PROJECT_CHILDREN = []        # the direct children of PROJECT of the text module_children() looked at last
+
+
 def module_children(text):
     """per MODULE of a written file: (name, the direct children as [kind, name] in written order)"""
     import re
     toks = re.findall(r'"(?:[^"\\]|\\.|"")*"|/\*.*?\*/|//[^\n]*|[^\s"]+', text, re.S)
     mods, depth, i = [], 0, 0
+    del PROJECT_CHILDREN[:]
     while i < len(toks):
         t = toks[i]
         if t == "/begin":
             depth += 1
             kind = toks[i + 1]
+            if depth == 2 and kind != "MODULE":
+                PROJECT_CHILDREN.append(kind)
             if depth == 2 and kind == "MODULE":
+                PROJECT_CHILDREN.append("MODULE " + toks[i + 2])
                 mods.append((toks[i + 2], []))
             elif depth == 3:
                 mods[-1][1].append([kind, toks[i + 2].strip('"')])
@@ -63,7 +70,7 @@ def two_module_sort(binp, rep, thorough, docs=None):
         rng.shuffle(ga["elems"])
         rng.shuffle(gb["elems"])
         # the list of MODULEs is sorted by name as well: in every other file the first module has the greater name
-        mo.append({"id": i, "a": gm.render2(ga, gb, "m" if i % 2 else "zz"), "ops": ["sort", "sort"], "want_text": True})
+        mo.append({"id": i, "a": gm.render2(ga, gb, "m" if i % 2 else "zz", header_between=(i % 3 == 0)), "ops": ["sort", "sort"], "want_text": True})
     if not docs:
         # modules whose elements hold reference lists in unsorted order (the cases of MC_Check): sort() must not touch them
         res = vlib.tlc("MC_Check", workers=8, coverage=False, timeout=1800)
@@ -86,6 +93,10 @@ def two_module_sort(binp, rep, thorough, docs=None):
         names = [m[0] for m in module_children(sn[0]["text"])]
         if [m[0] for m in module_children(sn[1]["text"])] != sorted(names):
             rep.violation("sort:order:modules", f"the MODULEs {names} are not written in ascending order after sort()", {"kind": "sort2", "a": c["a"]})
+            continue
+        # (PROJECT_CHILDREN now describes the sorted text) the HEADER stands in front of the MODULEs
+        if "HEADER" in PROJECT_CHILDREN and PROJECT_CHILDREN[0] != "HEADER":
+            rep.violation("sort:order:header", f"after sort() the children of PROJECT are written as {PROJECT_CHILDREN}", {"kind": "sort2", "a": c["a"]})
             continue
         for k, mname in enumerate(names):
             g0 = gm.flat(graphlib.graph_of_tree(sn[0]["tree"], gm.module_index(sn[0]["tree"], mname)))
